@@ -1,10 +1,12 @@
 //! zsim — deterministic simulation with fault injection for KillingSpark/zstd-rs (see /verif/DESIGN.md).
 
+mod c05;
 mod c06;
 mod c10;
 mod c11;
 mod content;
 mod driver;
+mod faults;
 mod rng;
 mod runner;
 mod seams;
@@ -37,6 +39,10 @@ macro_rules! with_engine {
                 let $e = c06::DecodeSim { mode: c06::Mode::C08 };
                 $body
             }
+            "C05" => {
+                let $e = c05::C05;
+                $body
+            }
             "C11" => {
                 let $e = c11::C11::new();
                 $body
@@ -53,7 +59,7 @@ macro_rules! with_engine {
     };
 }
 
-pub const ALL_ENGINES: &[&str] = &["C06", "C08", "C10", "C11"];
+pub const ALL_ENGINES: &[&str] = &["C05", "C06", "C08", "C10", "C11"];
 
 fn do_replay<E: Engine>(engine: &E, path: &Path) -> i32 {
     match runner::replay(engine, path) {
